@@ -67,6 +67,7 @@ type c20Result struct {
 	slowVictims int
 	masterDied  string
 	timeline    string
+	skipped     bool // the delay injector (strace) failed twice: not judged
 	refused     bool // --max-procs below 1: the master refused to start and no worker ever existed
 }
 
@@ -879,6 +880,18 @@ func checkC20(c *Ctx) {
 					b = binRace
 				}
 				results[i] = runC20Scenario(c, b, scenarios[i], i)
+				// the delay injector is a tracer: when strace itself fails (ptrace error under
+				// load) it takes the traced master down with it - that is the tool, not Zn.
+				// The scenario is run once more; if the tracer fails again it is not judged
+				if results[i].masterDied != "" && strings.Contains(results[i].masterDied, "strace: ") {
+					c.Count("scenarios_rerun_after_tracer_failure", 1)
+					results[i] = runC20Scenario(c, b, scenarios[i], i+1000)
+					if results[i].masterDied != "" && strings.Contains(results[i].masterDied, "strace: ") {
+						c.Count("scenarios_not_judged_tracer_failure", 1)
+						results[i].masterDied = ""
+						results[i].skipped = true
+					}
+				}
 			}(i)
 		}
 		wg.Wait()
@@ -909,6 +922,9 @@ func checkC20(c *Ctx) {
 		}
 		if r.refused {
 			c.Count("configurations_refused_at_start", 1)
+			continue
+		}
+		if r.skipped {
 			continue
 		}
 		c.Count("evaluations", int64(r.requests))
